@@ -142,6 +142,20 @@ func callTraversalCount(g string) c17Call {
 	}}
 }
 
+// callOutEdges reads the out-edges of a vertex through a real traversal (adjacency scan + record loads).
+func callOutEdges(g, v string) c17Call {
+	return c17Call{Read: true, Name: "Traversal(" + g + ",V(" + v + ").outE())", Do: func(s *server.GripServer) string {
+		sink := &rowSink{}
+		err := s.Traversal(&gripql.GraphQuery{Graph: g, Query: gripql.V(v).OutE().Statements}, sink)
+		if err != nil {
+			return "error"
+		}
+		rows := append([]string{}, sink.rows...)
+		sort.Strings(rows)
+		return strings.Join(rows, ";")
+	}}
+}
+
 type c17Scn struct {
 	Name    string
 	Setup   []c17Call
@@ -187,6 +201,7 @@ func c17Scns() []c17Scn {
 		callDelVertex("g1", "c"),              // a vertex with an incident edge of its own
 		callAddVertex("g1", "d", "P"),         // unrelated new vertex
 		callAddEdge("g1", "f", "a", "b", "x"), // second edge between the same endpoints
+		callOutEdges("g1", "a"),               // a reader of the adjacency of a: it may only ever see edges somebody wrote
 	}
 	for i := range alpha {
 		for j := i; j < len(alpha); j++ {
@@ -332,7 +347,7 @@ func c17Scenarios(tier string) []schedScenario {
 func C17(tier string, args []string) int {
 	w := &schedWorker{prop: "C17", scenarios: c17Scenarios(tier)}
 	return runSched("C17", tier, args, w,
-		"13 hand-written scenarios of 2-3 concurrent clients with 1-2 calls each plus all 45 unordered pairs of a 9-call alphabet with colliding ids on a graph holding two edges (same-id writes, add/delete of an edge and of its endpoint, re-adding an edge while reading it, graph creation/deletion against writes, bulk load against a traversal and against a single write, disjoint writers, relabels against a reader) on the real GripServer handlers; preemption bound 2 (3 thorough) with state cache; every execution's (return values, final observation of all graphs) must be one of the outcomes of the sequential orders of the same calls, computed by running the real code unscheduled; no panic, no deadlock",
+		"13 hand-written scenarios of 2-3 concurrent clients with 1-2 calls each plus all 55 unordered pairs of a 10-call alphabet (9 edits and a traversal reading the out-edges of a) with colliding ids on a graph holding two edges (same-id writes, add/delete of an edge and of its endpoint, re-adding an edge while reading it, graph creation/deletion against writes, bulk load against a traversal and against a single write, disjoint writers, relabels against a reader) on the real GripServer handlers; preemption bound 2 (3 thorough) with state cache; every execution's (return values, final observation of all graphs) must be one of the outcomes of the sequential orders of the same calls, computed by running the real code unscheduled; no panic, no deadlock",
 		[]string{
 			"scheduling points: before every key-value call of memkv, at memkv's writer lock, at every channel/goroutine/wait-group operation of server/api.go, kvgraph, kvindex, the pipeline and its processors; key-value calls themselves are atomic (memkv is a serialisable store)",
 			"the sequential reference is the implementation itself, so C03's sequential defects are not charged again; label-index components are excluded from the final observation for the same reason",
